@@ -151,7 +151,8 @@ def run_config(cfg: dict, policy, *, record_states=False, max_steps=5000, timeou
       extra_box = {}
       if piter:
         # the real parallel-iteration entry points: pool workers run enqueue_from_iterator
-        pool = iter_utils.futures.ThreadPoolExecutor(max_workers=len(cfg['prods']), thread_name_prefix='p#')
+        pool = iter_utils.futures.ThreadPoolExecutor(max_workers=cfg.get('pool') or len(cfg['prods']), thread_name_prefix='p#',
+                                                     per_task_threads=bool(cfg.get('pool')))
         exc_type = SkippableError if cfg.get('ignore_error') else ProducerError
         if cfg.get('shared'):
           n_src, fail_src = cfg['shared']
@@ -286,4 +287,4 @@ def to_tlc(cfg, fixes=None):
   return qconfig.make(cfg['prods'], cfg['cons'], cap=cfg.get('cap', 0), stoppers=cfg.get('stoppers'),
                       declared=cfg.get('declared'), timeout=bool(cfg.get('timeout')),
                       ignore_error=bool(cfg.get('ignore_error')),
-                      fixes=qconfig.ALL_FIXES if fixes is None else fixes, shared=cfg.get('shared'))
+                      fixes=qconfig.ALL_FIXES if fixes is None else fixes, shared=cfg.get('shared'), pool=cfg.get('pool') or 0)
